@@ -278,27 +278,8 @@ func runC06(w *World, r *Report) {
 	if less := w.Fn(pkgLctx, "PriorityQueue.Less"); less == nil {
 		r.Undec("R4", "Less", token.NoPos, "function not found")
 	} else {
-		si, sj := "param:pq[param:i].score", "param:pq[param:j].score"
-		ti, tj := "param:pq[param:i].timestamp", "param:pq[param:j].timestamp"
-		n := 0
-		for _, alt := range ReturnAlts(less, 0) {
-			n++
-			eq, _ := FindRel(relsOfConds(alt.Conds), func(v ssa.Value) bool { return Path(v) == si }, func(v ssa.Value) bool { return Path(v) == sj })
-			ok := false
-			if rel, isRel := NormCond(Cond{V: alt.Val, Pol: true}); isRel {
-				lp, rp := Path(rel.L), Path(rel.R)
-				switch eq {
-				case "==":
-					ok = (lp == ti && rp == tj && rel.Op == "<") || (lp == tj && rp == ti && rel.Op == ">")
-				case "!=":
-					ok = (lp == si && rp == sj && rel.Op == "<") || (lp == sj && rp == si && rel.Op == ">")
-				}
-			}
-			r.Check(ok, "R4", "Less/"+map[string]string{"==": "tie-break-by-arrival", "!=": "by-score"}[eq], posOf(alt.Ret), "when score_i %s score_j the heap orders ascending by %s", eq, map[string]string{"==": "timestamp", "!=": "score"}[eq])
-		}
-		if n != 2 {
-			r.Undec("R4", "Less/shape", less.Pos(), "expected two return alternatives, found %d", n)
-		}
+		// lower score first, ties by earlier arrival: decided over the nine orderings (comparator.go)
+		checkLessByOrderings(w, r, "R4", less, "score", "timestamp")
 	}
 	for _, a := range w.fieldAccesses(pkgLctx, "memoryQueue", []string{"queue"}) {
 		if isFreshBase(a.Base) {
